@@ -71,7 +71,8 @@ func smallValue(t *rapid.T, attr jsonapi.Attr, label string) any {
 	case jsonapi.AttrTypeBool:
 		b = i > 0
 	case jsonapi.AttrTypeTime:
-		b = []time.Time{t0, t0.Add(1).In(time.FixedZone("", 3600)), t0.Add(time.Hour).In(time.FixedZone("", 7200))}[i]
+		// the first two are the same instant in different zones: a tie
+		b = []time.Time{t0, t0.In(time.FixedZone("", 3600)), t0.Add(time.Hour).In(time.FixedZone("", 7200))}[i]
 	case jsonapi.AttrTypeBytes:
 		b = [][]byte{{}, {1, 2}, {2, 1}}[i]
 	}
@@ -213,7 +214,7 @@ func TestC09Range(t *testing.T) {
 	r := rec.For("C09Range")
 
 	rapid.Check(t, prop(r, func(t *rapid.T) {
-		ts := filterType(t, 4, false)
+		ts := filterType(t, 4, true)
 		n := rapid.IntRange(0, 12).Draw(t, "n")
 		if n < 4 && rapid.Bool().Draw(t, "more") {
 			n += 5
@@ -233,6 +234,16 @@ func TestC09Range(t *testing.T) {
 
 			for _, a := range ts.Attrs {
 				it.vals[a.Name] = smallValue(t, a, fmt.Sprintf("v%d-%s", i, a.Name))
+			}
+
+			// Relationship values (small domains), so that filters on
+			// relationships take part in the selection.
+			for _, rel := range ts.Rels {
+				if rel.ToOne {
+					it.vals[rel.FromName] = rapid.SampledFrom([]string{"", "x", "y"}).Draw(t, fmt.Sprintf("v%d-%s", i, rel.FromName))
+				} else {
+					it.vals[rel.FromName] = rapid.SampledFrom([][]string{{}, {"x"}, {"y", "x"}}).Draw(t, fmt.Sprintf("v%d-%s", i, rel.FromName))
+				}
 			}
 
 			items = append(items, it)
